@@ -741,9 +741,35 @@ def judge_e2e(ctx, lines, go):
     return [(ln, g, None if k is None else sv[k], None if k is None else pv[k], want) for ln, g, k, want in meta]
 
 
+def run_boot(ctx):
+    """an initial worker dies while the master is still creating the initial pool: when things are quiet again there are
+    init ≤ live ≤ max workers and the master's count is the real one"""
+    cfgs = [(2, 2), (4, 4), (16, 16), (8, 12), (3, 3)] if ctx.quick() else [(2, 2), (3, 3), (4, 4), (6, 6), (8, 8), (12, 12), (16, 16), (8, 12), (16, 20), (24, 24)]
+    lines = ['pmreal %d %d 2 K' % c for c in cfgs for _ in range(2 if ctx.quick() else 4)]
+    go = run_go_parallel(ctx, lines, timeout_ms=60000)
+    for ln, g in zip(lines, go):
+        ctx.evaluations += 1
+        ctx.count('boot_cases')
+        f = g.split()
+        init, mx = int(ln.split()[1]), int(ln.split()[2])
+        if len(f) == 5 and f[:2] == ['ok', 'boot']:
+            live, ref, nch = int(f[2]), int(f[3]), int(f[4])
+            if not (init <= live <= mx and ref == live and nch == live):
+                # believed only when it shows again alone (start-up races with the machine's load)
+                g2 = ctx.run_go([ln], timeout_ms=60000, parallel=False)[0]
+                f2 = g2.split()
+                if len(f2) == 5 and f2[:2] == ['ok', 'boot'] and not (init <= int(f2[2]) <= mx and int(f2[3]) == int(f2[2]) == int(f2[4])):
+                    ctx.violation('pmboot', ln, g2, 'ok boot <live> <refCount> <childs> with %d ≤ live ≤ %d and refCount = childs = live' % (init, mx))
+            ctx.nontriv(ln)
+        else:
+            ctx.disagreement('pmboot-not-run', ln, g, 'ok boot …')
+    ctx.streams.append({'stream': 'pmboot', 'cases': len(lines)})
+
+
 def run_e2e(ctx):
     if len(ctx.violations) >= 3:
         return
+    run_boot(ctx)
     import time as _t
     scripts = e2e_scripts(ctx)
     lines = ['pmreal %d %d %d %s' % s for s in scripts]
